@@ -200,7 +200,17 @@ fn fam_lzma(ctx: &CaseCtx, cov: &mut Cov) -> CaseOut {
     }
     let (payload, _table, _) = enc.finish();
     let fabricated_len = hist.len() as u64;
-    let sink = SharedSink::new();
+    // the sink's behaviour must not matter: a third of the runs use a sink that accepts only part
+    // of each write (1 byte, or random counts)
+    let sink = match rng.below(6) {
+        0 => SharedSink::new().with(|s| s.short = 1),
+        1 => {
+            let seed = rng.next();
+            SharedSink::new().with(|s| s.short_rng = Some(seed))
+        }
+        _ => SharedSink::new(),
+    };
+    cov.name(if sink.0.borrow().short > 0 || sink.0.borrow().short_rng.is_some() { "runs_with_short_writing_sink" } else { "runs_with_plain_sink" }, 1);
     let obs = sut::new_obs(u64::MAX);
     let reader = if rng.chance(1, 4) { ReaderKind::random(&mut rng) } else { ReaderKind::Slice };
     let mut small_limit = false;
@@ -406,7 +416,17 @@ fn fam_lzma2(ctx: &CaseCtx, cov: &mut Cov) -> CaseOut {
     } else {
         w.bytes.clone()
     };
-    let sink = SharedSink::new();
+    // the sink's behaviour must not matter: a third of the runs use a sink that accepts only part
+    // of each write (1 byte, or random counts)
+    let sink = match rng.below(6) {
+        0 => SharedSink::new().with(|s| s.short = 1),
+        1 => {
+            let seed = rng.next();
+            SharedSink::new().with(|s| s.short_rng = Some(seed))
+        }
+        _ => SharedSink::new(),
+    };
+    cov.name(if sink.0.borrow().short > 0 || sink.0.borrow().short_rng.is_some() { "runs_with_short_writing_sink" } else { "runs_with_plain_sink" }, 1);
     let obs = sut::new_obs(u64::MAX);
     let c = sut::decode(
         if via_xz { Entry::Xz } else { Entry::Lzma2 },
